@@ -829,7 +829,8 @@ class C06(ParseProp):
     level_text = ("The pest grammar is translated into a Coq deep embedding on every run; the parser model (Peg.v interpreter over it + Build.v, the "
                   "hand model of parser.rs) is extracted and run against the crate on every generated sentence, together with an independent "
                   "reference recogniser of the RFC 9535 ABNF + validity rules written in Coq (Concrete.v). Coq theorems: Build accepts every "
-                  "well-typed standard function call (C06_typing_partial); the whole pipeline accepts the entire filter-free sublanguage in canonical "
+                  "well-typed standard function call (C06_typing_partial); the whole pipeline accepts queries WITH filters nested to any depth (existence tests, comparisons of singular "
+                  "queries and int/string/bool/null literals, !, parentheses, &&, ||; C06_with_filters_partial) and the entire filter-free sublanguage in canonical "
                   "spelling -- any number of child/descendant segments, bracketed unions of quoted names, wildcards, indices and slices with any "
                   "subset of their parts, shorthand names, any integers of the I-JSON range -- and every Normalized Path, and reads each as the "
                   "right AST, also when written with any optional blank space at every S position (C06_filter_free_partial, "
